@@ -432,27 +432,31 @@ class SqlImpl(TableImpl):
             name_in_subquery = dict()
 
             # resolve potential column name collisions in the subquery
-            names = {sqa_expr[uid].name for uid in needed_cols.keys() if uid in sqa_expr}
+            # (column names are compared case-insensitively, as several dialects do)
+            names = {sqa_expr[uid].name.lower() for uid in needed_cols.keys() if uid in sqa_expr}
             used = set()
             for uid in needed_cols.keys():
                 if uid in sqa_expr:
                     name = sqa_expr[uid].name
-                    if name in used:
+                    if name.lower() in used:
                         # a generated name must not be the name of another column
-                        c = cnt.get(name, 1)
-                        while f"{name}_{c}" in names or f"{name}_{c}" in used:
+                        c = cnt.get(name.lower(), 1)
+                        while f"{name}_{c}".lower() in names or f"{name}_{c}".lower() in used:
                             c += 1
-                        cnt[name] = c + 1
+                        cnt[name.lower()] = c + 1
                         name_in_subquery[uid] = f"{name}_{c}"
                     else:
                         name_in_subquery[uid] = name
-                    used.add(name_in_subquery[uid])
-                    sqa_expr[uid] = sqa.label(name_in_subquery[uid], sqa_expr[uid])
+                    used.add(name_in_subquery[uid].lower())
                     query.select.append(uid)
 
+            # outside the subquery the columns have their own names again
+            outer_name = {uid: sqa_expr[uid].name for uid in name_in_subquery}
+            for uid in name_in_subquery:
+                sqa_expr[uid] = sqa.label(name_in_subquery[uid], sqa_expr[uid])
             table = cls.compile_query(table, query, sqa_expr).subquery()
             sqa_expr = {
-                uid: sqa.label(name_in_subquery[uid], table.columns.get(name_in_subquery[uid]))
+                uid: sqa.label(outer_name[uid], table.columns.get(name_in_subquery[uid]))
                 for uid in needed_cols.keys()
                 if uid in sqa_expr
             }
